@@ -231,3 +231,36 @@ Definition check_tp_repo (c : tcase) : verdict :=
 
 Definition tob s m sc h rp q := {| to_status := s; to_parts := (m, sc, h, rp, q) |}.
 Definition tcs fx L d t := {| t_fixed_F10 := fx; t_L := L; t_direct := d; t_tp := t |}.
+
+(* ------------------------------------------------------------------ third stream: requests in flight at the same time *)
+
+(** A case: request 1 through each of the three entry points; its pipeline reads the body (first read,
+    reported to the driver's hook), another request with a body of the same shape is served while it
+    waits, then it reads the body again.  [i_expected]: the decoder's answer on request 1's own bytes
+    (oracle).  The model ([read_body], theorem [C13_body_reads_stable]): both reads return that.
+    [v_corr]: they do, at all three entry points;  [v_prop]: what the pipeline sees does not change over
+    time and is the same at all entry points (no reference to the model or the oracle). *)
+Record iobs := { io_status : Z; io_b1 : string; io_b2 : string; io_ok : bool }.
+Record icase := { i_expected : string; i_obs : list iobs }.
+
+Definition il_model (expected : string) : list (nat * option value) :=
+  run_reads (fun _ => VJson expected) [0; 0]%nat [(lrq "" false "" "" "" [] "" "" PackRaw false, None)].
+
+Definition check_il (c : icase) : verdict :=
+  let want := match il_model (i_expected c) with
+              | [(_, Some (VJson a)); (_, Some (VJson b))] => Some (a, b)
+              | _ => None
+              end in
+  {| v_corr := match want with
+               | Some (a, b) => forallb (fun o => Z.eqb (io_status o) 0 && io_ok o && String.eqb (io_b1 o) a && String.eqb (io_b2 o) b) (i_obs c)
+               | None => false
+               end && Nat.eqb (length (i_obs c)) 3;
+     v_prop := forallb (fun o => Z.eqb (io_status o) 0 && io_ok o && String.eqb (io_b1 o) (io_b2 o)) (i_obs c) &&
+               match i_obs c with
+               | o :: r => forallb (fun o' => String.eqb (io_b1 o') (io_b1 o)) r
+               | [] => false
+               end;
+     v_guards := [] |}.
+
+Definition iob s b1 b2 ok := {| io_status := s; io_b1 := b1; io_b2 := b2; io_ok := ok |}.
+Definition ics e os := {| i_expected := e; i_obs := os |}.
